@@ -45,6 +45,19 @@ def _is_unsupported(c):
             or "unsupported construct" in d.lower())
 
 
+_FREE_MODEL = ("rust_dealloc must be called on an object whose allocated size matches its layout",
+               "free argument must be NULL or valid pointer", "free argument must be dynamic object",
+               "free argument has offset zero", "double free", "free called for new[] object",
+               "free argument is dynamic object")
+
+
+def _is_free_model(c):
+    """Failures inside Kani's C model of __rust_dealloc/free (kani_lib.c). regress never frees memory by hand, so
+    these arise only from harness-built values (zero-length boxed slices, realloc'd Vec buffers) being dropped at the
+    end of a proof: a model artefact, reported as undecided, never as a violation."""
+    return c["description"] in _FREE_MODEL or "kani_lib.c" in c.get("location", "")
+
+
 def _is_cover(c):
     return ".cover." in c["id"] or c["status"] in ("SATISFIED", "UNSATISFIABLE")
 
@@ -67,7 +80,8 @@ def classify(out, rc, timed_out):
     failed = [c for c in checks if c["status"] == "FAILURE" and not _is_cover(c)]
     unwind = [c for c in failed if _is_unwind(c)]
     unsupported = [c for c in failed if _is_unsupported(c)]
-    real = [c for c in failed if not _is_unwind(c) and not _is_unsupported(c)]
+    freem = [c for c in failed if _is_free_model(c)]
+    real = [c for c in failed if not _is_unwind(c) and not _is_unsupported(c) and not _is_free_model(c)]
     errored = [c for c in checks if c["status"] == "ERROR"]
     if errored and not real:
         res["status"] = "undecided"
@@ -99,6 +113,10 @@ def classify(out, rc, timed_out):
         if unsupported:
             res["status"] = "undecided"
             res["reason"] = "unsupported construct reachable: %s" % unsupported[0]["description"]
+            return res
+        if freem:
+            res["status"] = "undecided"
+            res["reason"] = "only Kani's free()/dealloc model failed (harness artefact): %s" % freem[0]["description"]
             return res
         res["status"] = "undecided"
         res["reason"] = "verification failed without a failed property check (see log)"
@@ -218,7 +236,8 @@ def classify_terse(block):
             failed.append({"id": "", "description": l.strip(), "location": "", "status": "FAILURE"})
     unwind = [c for c in failed if _is_unwind(c)]
     unsupported = [c for c in failed if _is_unsupported(c)]
-    real = [c for c in failed if not _is_unwind(c) and not _is_unsupported(c)]
+    freem = [c for c in failed if _is_free_model(c)]
+    real = [c for c in failed if not _is_unwind(c) and not _is_unsupported(c) and not _is_free_model(c)]
     if "CBMC timed out" in block:
         res["status"], res["reason"] = "undecided", "timeout"
     elif "VERIFICATION:- SUCCESSFUL" in block and not failed:
@@ -242,6 +261,9 @@ def classify_terse(block):
         elif unsupported:
             res["status"] = "undecided"
             res["reason"] = "unsupported construct reachable: %s" % unsupported[0]["description"]
+        elif freem:
+            res["status"] = "undecided"
+            res["reason"] = "only Kani's free()/dealloc model failed (harness artefact): %s" % freem[0]["description"]
         else:
             res["status"] = "undecided"
             res["reason"] = "CBMC failed without a failed property check (memory cap, solver error): %s" % \
